@@ -34,6 +34,7 @@ Inductive dexp :=
 | DAdd (a b : dexp) | DSub (a b : dexp)
 | DAnd (a b : dexp) | DOr (a b : dexp) | DNot (a : dexp)
 | DIsPending (a : dexp)
+| DLower (a : dexp) | DTrim (a : dexp)      (* strings.ToLower, strings.TrimSpace *)
 | DIn (a : dexp) (l : list dexp)
 | DIf (c a b : dexp)
 | DUnknown (text : string).
@@ -151,6 +152,8 @@ Fixpoint deval (m : menv) (e : dexp) : option value :=
   | DOr a b => bin (vlog orb) (deval m a) (deval m b)
   | DNot a => match deval m a with Some (VB x) => Some (VB (negb x)) | _ => None end
   | DIsPending a => match deval m a with Some (VS s) => Some (VB (is_pending s)) | _ => None end
+  | DLower a => match deval m a with Some (VStr s) => Some (VStr (to_lower s)) | _ => None end
+  | DTrim a => match deval m a with Some (VStr s) => Some (VStr (trim_space s)) | _ => None end
   | DIn a l =>
       match deval m a with
       | Some va =>
@@ -177,10 +180,24 @@ Fixpoint deval (m : menv) (e : dexp) : option value :=
 
 (* ---- the table kept on the Coq side ------------------------------------------------------ *)
 
-(* the only restriction on ALL environments: a variable that the translator named "len(…)" is
-   the value of Go's builtin len, which is never negative *)
+(* the restrictions on ALL environments -- facts of the Go language about the variables the
+   translator names:
+   - "len(x)" is the value of the builtin len: never negative;
+   - the length of a nil slice / map is 0;
+   - a lookup in an empty (or nil) map finds nothing: "has(x[k])" is the `ok` of `v, ok := x[k]`;
+   - a lookup that finds nothing yields the zero value: the string "x[k]" is "" *)
 Definition is_len (x : string) : bool := prefix "len(" x.
-Definition env_wf (m : menv) : Prop := forall x, is_len x = true -> (0 <= m_n m x)%Z.
+Definition len_of (x : string) : string := "len(" ++ x ++ ")".
+Definition has_of (p : string) : string := "has(" ++ p ++ ")".
+Definition has_key (x y : string) : bool := prefix ("has(" ++ x ++ "[") y.
+(* "len(x)" -> "x" *)
+Definition unlen (l : string) : string := substring 4 (String.length l - 5) l.
+
+Definition env_wf (m : menv) : Prop :=
+  (forall x, is_len x = true -> (0 <= m_n m x)%Z) /\
+  (forall x, m_nil m x = true -> m_n m (len_of x) = 0%Z) /\
+  (forall x y, has_key x y = true -> m_n m (len_of x) = 0%Z -> m_b m y = false) /\
+  (forall p, m_b m (has_of p) = false -> m_str m p = "").
 
 (* assumptions under which a function of the model stands for the Go function: the part of
    the Go function's environment that the model does not have (each comes with its reason in
@@ -235,6 +252,16 @@ Definition go_item (gt : list (string * list (string * dexp))) (f k : string) : 
   | None => DUnknown "no such function"
   end.
 
+(* the items of function f whose key is k or "k:<text>" (a returned error is identified by
+   where it comes from; the text of its message is not part of its identity) *)
+Definition key_matches (k k' : string) : bool := String.eqb k k' || prefix (k ++ ":") k'.
+
+Definition go_items (gt : list (string * list (string * dexp))) (f k : string) : list dexp :=
+  match find (fun fl => String.eqb (fst fl) f) gt with
+  | Some fl => map snd (filter (fun kv => key_matches k (fst kv)) (snd fl))
+  | None => []
+  end.
+
 (* the obligation for one item: for ALL environments that meet the function's assumptions
    the Go expression evaluates, to the model's value *)
 Definition item_ok (pre : list assumption) (it : mitem) (g : dexp) : Prop :=
@@ -244,7 +271,7 @@ Fixpoint items_ok (gt : list (string * list (string * dexp))) (f : string) (pre 
          (l : list (string * mitem)) : Prop :=
   match l with
   | [] => True
-  | (k, it) :: t => item_ok pre it (go_item gt f k) /\ items_ok gt f pre t
+  | (k, it) :: t => (exists g, In g (go_items gt f k) /\ item_ok pre it g) /\ items_ok gt f pre t
   end.
 
 Definition fn_ok (gt : list (string * list (string * dexp))) (fm : fmodel) : Prop :=
